@@ -317,10 +317,29 @@ pub fn c12(ctx: &CheckCtx) -> i32 {
 
 /// contexts / vertices pulled through the adapter in the direct run above which a case is not traced
 const C15_MAX_PULLS: u64 = 6_000;
+const C15_SCHED_LEN: usize = 16;
 
 pub fn c15_case(bytes: &[u8], stats: &mut Stats, counting: bool, cfg: &GenConfig) -> Verdict {
+    c15_case_with(bytes, stats, counting, cfg, 0, false)
+}
+
+/// `sched_len > 0`: the traced adapter reads ahead / buffers according to a generated order-preserving schedule
+/// (the C02 wrapper), so the trace holds several inputs before the first output of a resolver call.
+///
+/// `listed == false` excludes by construction the two listed findings about replaying such traces: the traced adapter then
+/// never pulls input at resolver-construction time and never polls an exhausted input again. `listed == true` allows both
+/// (the shapes of the repository's own batching test adapter) and names them in the failure signature.
+pub fn c15_case_with(bytes: &[u8], stats: &mut Stats, counting: bool, cfg: &GenConfig, sched_len: usize, listed: bool) -> Verdict {
     let mut c = Choices::new(bytes);
     let prefix_choice = c.below(256);
+    let mut schedule = crate::checks::adapters::decode_schedule(&mut c, sched_len);
+    if !listed {
+        for plan in schedule.iter_mut() {
+            plan.input.eager = false;
+            plan.output.eager = false;
+            plan.neighbors.eager = false;
+        }
+    }
     let case = decode_world_case(&mut c, cfg);
     let compiled = match compile_case(&case) {
         Ok(x) => x,
@@ -353,16 +372,21 @@ pub fn c15_case(bytes: &[u8], stats: &mut Stats, counting: bool, cfg: &GenConfig
     let traced = engine::catch(move || {
         let trace = Trace::new(iq.ir_query.clone(), string_args);
         let tracer = Rc::new(RefCell::new(trace));
+        let (batching, bstats) = if listed {
+            crate::wrappers::BatchingAdapter::new(GraphAdapter::new(world), schedule)
+        } else {
+            crate::wrappers::BatchingAdapter::new_polite(GraphAdapter::new(world), schedule)
+        };
         #[allow(clippy::arc_with_non_send_sync)]
-        let tap = Arc::new(AdapterTap::new(GraphAdapter::new(world), tracer.clone()));
+        let tap = Arc::new(AdapterTap::new(batching, tracer.clone()));
         let rows: Vec<_> = {
             let iter = interpret_ir(tap.clone(), iq, args).expect("args accepted before");
             tap_results(tap.clone(), iter).collect()
         };
         let tap = Arc::try_unwrap(tap).ok().expect("HARNESS: adapter tap still shared");
-        (rows, tap.finish())
+        (rows, tap.finish(), (bstats.read_ahead_events.get(), bstats.eager_fills.get(), bstats.polls_after_exhaustion.get()))
     });
-    let (traced_rows, trace) = match traced {
+    let (traced_rows, trace, (read_ahead_events, eager_fills, polls_after_exhaustion)) = match traced {
         Ok(x) => x,
         Err(p) => {
             return Verdict::Fail {
@@ -376,9 +400,24 @@ pub fn c15_case(bytes: &[u8], stats: &mut Stats, counting: bool, cfg: &GenConfig
             stats.label(l);
         }
         stats.bump("trace_ops", trace.ops.len() as u64);
-        if (case.features.fold > 0 || case.features.recurse > 0) && trace.ops.len() >= 20 && stats.nontrivial(&case.key()) {
+        if sched_len > 0 {
+            stats.label(if read_ahead_events > 0 { "traced_adapter_read_ahead" } else { "traced_adapter_schedule_without_read_ahead" });
+        }
+        let mut key = case.key();
+        if sched_len > 0 {
+            key.extend(format!("sched{read_ahead_events}").as_bytes());
+        }
+        if (case.features.fold > 0 || case.features.recurse > 0)
+            && trace.ops.len() >= 20
+            && (sched_len == 0 || read_ahead_events > 0)
+            && stats.nontrivial(&key)
+        {
             stats.sample(|| json!({"case": case.short_json(), "trace_ops": trace.ops.len(), "rows": traced_rows.len()}));
         }
+    }
+    if traced_rows != direct_rows && sched_len > 0 {
+        // rows that change under read-ahead are C02's subject (the direct run used the plain adapter)
+        return Verdict::Discard("rows-differ-under-read-ahead(C02)".into());
     }
     if traced_rows != direct_rows {
         return Verdict::Fail {
@@ -405,10 +444,18 @@ pub fn c15_case(bytes: &[u8], stats: &mut Stats, counting: bool, cfg: &GenConfig
             }
         }
     };
+    let mut adapter_manners = vec![];
+    if eager_fills > 0 {
+        adapter_manners.push("eager_pull_at_resolver_construction");
+    }
+    if polls_after_exhaustion > 0 {
+        adapter_manners.push("input_polled_again_after_exhaustion");
+    }
+    let ctx_sig = if adapter_manners.is_empty() { String::new() } else { format!("|traced-adapter:{}", adapter_manners.join(",")) };
     let full = engine::catch(|| assert_interpreted_results(&trace2, &direct_rows, true));
     if let Err(p) = full {
         return Verdict::Fail {
-            sig: format!("c15:replay-diverged|{}", first_line(&p.message).chars().take(60).collect::<String>()),
+            sig: format!("c15:replay-diverged|{}{ctx_sig}", first_line(&p.message).chars().take(60).collect::<String>()),
             msg: format!("replaying the deserialized trace failed: {}\nquery:\n{}\nargs: {:?}", p.render(), case.query_text, case.args),
         };
     }
@@ -417,7 +464,7 @@ pub fn c15_case(bytes: &[u8], stats: &mut Stats, counting: bool, cfg: &GenConfig
         let prefix = engine::catch(|| assert_interpreted_results(&trace2, &direct_rows[..k], false));
         if let Err(p) = prefix {
             return Verdict::Fail {
-                sig: "c15:prefix-replay-diverged".into(),
+                sig: format!("c15:prefix-replay-diverged{ctx_sig}"),
                 msg: format!("replaying a {k}-row prefix failed: {}\nquery:\n{}", p.render(), case.query_text),
             };
         }
@@ -428,19 +475,47 @@ pub fn c15_case(bytes: &[u8], stats: &mut Stats, counting: bool, cfg: &GenConfig
 pub fn c15(ctx: &CheckCtx) -> i32 {
     let cfg = default_gen_config();
     if ctx.replay.is_some() {
-        return replay_with(ctx, &|_s, bytes| c15_case(bytes, &mut Stats::default(), false, &cfg));
+        return replay_with(ctx, &|sub, bytes| {
+            if sub == "c15-read-ahead" || sub == "c15-read-ahead-listed" {
+                c15_case_with(bytes, &mut Stats::default(), false, &cfg, C15_SCHED_LEN, sub == "c15-read-ahead-listed")
+            } else {
+                c15_case(bytes, &mut Stats::default(), false, &cfg)
+            }
+        });
     }
     let mut report = Report::new(
         ctx,
         "choice stream -> world; rows(direct) must equal rows through AdapterTap + tap_results; the recorded Trace is \
          serialised to RON, deserialised, and replayed with assert_interpreted_results (TraceReaderAdapter has no access to the \
          dataset), completely and for a generated row prefix. Non-trivial: trace with a fold or recursion and >= 20 operations; \
-         distinct by case hash.",
+         distinct by case hash. \
+         A second search traces adapters that read ahead / buffer by a generated order-preserving schedule (non-trivial there: \
+         the schedule actually made a resolver pull >= 2 contexts before its first output).",
     );
     report.assume("traces are serialised with RON (the repo's own format); JSON cannot represent tuple map keys");
     let cases = ctx.cases(60_000, 600_000);
     let res = search(ctx, "c15", cases, WORLD_MIN_LEN, WORLD_MAX_LEN, |b, s, counting| c15_case(b, s, counting, &cfg));
     report.absorb(res, &|b| render_world_case(&b[1.min(b.len())..], &cfg));
+    // the same property over adapters that read ahead (order-preserving schedules of the C02 wrapper): the trace then holds
+    // several inputs of one resolver call before its first output, which the replay side has to queue
+    let cases = ctx.cases(30_000, 300_000);
+    let res = search(ctx, "c15-read-ahead", cases, WORLD_MIN_LEN + 100, WORLD_MAX_LEN + 300, |b, s, counting| {
+        c15_case_with(b, s, counting, &cfg, C15_SCHED_LEN, false)
+    });
+    report.absorb(res, &|b| json!({"note": "choice stream = prefix byte, read-ahead schedule, world", "choices_len": b.len()}));
+    // the two listed findings (adapters that pull at construction time / poll an exhausted input again): smaller search that
+    // includes them and tolerates exactly their signatures; it reaches both within a few cases, so it doubles as their probe
+    let cases = ctx.cases(4_000, 100_000);
+    let res = search(ctx, "c15-read-ahead-listed", cases, WORLD_MIN_LEN + 100, WORLD_MAX_LEN + 300, |b, s, counting| {
+        let mut scratch = Stats::default();
+        let v = c15_case_with(b, &mut scratch, counting, &cfg, C15_SCHED_LEN, true);
+        if counting {
+            s.bump("cases_in_search_including_listed_findings", 1);
+        }
+        v
+    });
+    report.absorb(res, &|b| json!({"note": "choice stream = prefix byte, read-ahead schedule, world", "choices_len": b.len()}));
+    report.assume("the read-ahead search excludes by construction adapters that pull input at resolver-construction time or poll an exhausted input again (two listed findings about the trace reader); a second search includes them and tolerates exactly their signatures");
     report.finish()
 }
 
